@@ -65,6 +65,7 @@ type fnInfo struct {
 	idx      map[ssa.Value]int
 	n        int
 	repoFunc bool // a function of /repo proper (not a harness, not std)
+	ipdom    []int
 }
 
 type VM struct {
@@ -485,66 +486,258 @@ func (vm *VM) runPure(fr *Frame, b *ssa.BasicBlock) {
 	}
 }
 
-// tryMerge returns the join block if the conditional at the end of fr.block was merged.
+// ipdoms computes immediate post-dominators (block index -> index, -1 = exit).
+func ipdoms(fn *ssa.Function) []int {
+	n := len(fn.Blocks)
+	const exit = -1
+	// pdom sets as bitsets over n+1 (last bit = virtual exit)
+	full := make([]uint64, (n+64)/64)
+	for i := range full {
+		full[i] = ^uint64(0)
+	}
+	sets := make([][]uint64, n)
+	for i := range sets {
+		sets[i] = append([]uint64(nil), full...)
+	}
+	changed := true
+	for changed {
+		changed = false
+		for bi := n - 1; bi >= 0; bi-- {
+			b := fn.Blocks[bi]
+			nw := make([]uint64, len(full))
+			if len(b.Succs) == 0 {
+				// only itself (exit implicit)
+			} else {
+				copy(nw, full)
+				for _, sc := range b.Succs {
+					for k := range nw {
+						nw[k] &= sets[sc.Index][k]
+					}
+				}
+			}
+			nw[bi/64] |= 1 << uint(bi%64)
+			same := true
+			for k := range nw {
+				if nw[k] != sets[bi][k] {
+					same = false
+				}
+			}
+			if !same {
+				sets[bi] = nw
+				changed = true
+			}
+		}
+	}
+	res := make([]int, n)
+	for bi := 0; bi < n; bi++ {
+		res[bi] = exit
+		// immediate post-dominator: the strict post-dominator that is post-dominated by all other strict ones
+		best := -1
+		bestCount := -1
+		for c := 0; c < n; c++ {
+			if c == bi || sets[bi][c/64]&(1<<uint(c%64)) == 0 {
+				continue
+			}
+			// count of post-dominators of c: the closest one has the most
+			cnt := 0
+			for k := range sets[c] {
+				x := sets[c][k]
+				for x != 0 {
+					x &= x - 1
+					cnt++
+				}
+			}
+			if cnt > bestCount {
+				bestCount = cnt
+				best = c
+			}
+		}
+		res[bi] = best
+	}
+	return res
+}
+
+const maxMergeBlocks = 24
+
+// tryMerge: if the conditional at the end of fr.block opens a side-effect-free, acyclic
+// region that re-converges at the immediate post-dominator, the region is evaluated once
+// with path predicates and the join's phis become ite terms (no fork, no solver query).
 func (vm *VM) tryMerge(fr *Frame, c *Term) *ssa.BasicBlock {
 	cur := fr.block
-	T, F := cur.Succs[0], cur.Succs[1]
-	var join *ssa.BasicBlock
-	var fromT, fromF *ssa.BasicBlock // predecessor of join on the true / false side
-	jt, okT := simpleBlock(T)
-	jf, okF := simpleBlock(F)
-	switch {
-	case okT && okF && jt == jf && T != F:
-		join, fromT, fromF = jt, T, F
-	case okT && jt == F:
-		join, fromT, fromF = F, T, cur
-	case okF && jf == T:
-		join, fromT, fromF = T, cur, F
-	default:
+	if fr.info.ipdom == nil {
+		fr.info.ipdom = ipdoms(fr.fn)
+	}
+	ji := fr.info.ipdom[cur.Index]
+	if ji < 0 {
 		return nil
 	}
-	if join == cur || join.Index <= cur.Index {
-		return nil // do not merge across back edges
+	join := fr.fn.Blocks[ji]
+	if join.Index <= cur.Index {
+		return nil
 	}
-	// the join's phis must be scalar
-	var phis []*ssa.Phi
+	// collect the region
+	inRegion := map[*ssa.BasicBlock]bool{}
+	var order []*ssa.BasicBlock // reverse post-order (topological)
+	state := map[*ssa.BasicBlock]int{}
+	ok := true
+	var dfs func(b *ssa.BasicBlock)
+	dfs = func(b *ssa.BasicBlock) {
+		if !ok || b == join {
+			return
+		}
+		switch state[b] {
+		case 1:
+			ok = false // cycle
+			return
+		case 2:
+			return
+		}
+		if b == cur || len(inRegion) >= maxMergeBlocks {
+			ok = false
+			return
+		}
+		state[b] = 1
+		inRegion[b] = true
+		if len(b.Instrs) == 0 {
+			ok = false
+			return
+		}
+		for _, ins := range b.Instrs[:len(b.Instrs)-1] {
+			if _, isPhi := ins.(*ssa.Phi); isPhi {
+				continue
+			}
+			if !pureInstr(ins) {
+				ok = false
+				return
+			}
+		}
+		switch b.Instrs[len(b.Instrs)-1].(type) {
+		case *ssa.If, *ssa.Jump:
+		default:
+			ok = false
+			return
+		}
+		for _, sc := range b.Succs {
+			dfs(sc)
+		}
+		state[b] = 2
+		order = append(order, b)
+	}
+	for _, sc := range cur.Succs {
+		dfs(sc)
+	}
+	if !ok {
+		return nil
+	}
+	// no entries into the region from outside
+	for b := range inRegion {
+		for _, p := range b.Preds {
+			if p != cur && !inRegion[p] {
+				return nil
+			}
+		}
+	}
+	for _, p := range join.Preds {
+		if p != cur && !inRegion[p] {
+			return nil
+		}
+	}
+	// phis (in region blocks and in the join) must be scalar
+	scalarPhi := func(ph *ssa.Phi) bool {
+		_, okb := ph.Type().Underlying().(*types.Basic)
+		return okb && !isString(ph.Type())
+	}
+	for b := range inRegion {
+		for _, ins := range b.Instrs {
+			if ph, isPhi := ins.(*ssa.Phi); isPhi && !scalarPhi(ph) {
+				return nil
+			}
+		}
+	}
 	for _, ins := range join.Instrs {
-		if ph, ok := ins.(*ssa.Phi); ok {
-			phis = append(phis, ph)
-		} else if _, ok := ins.(*ssa.DebugRef); !ok {
-			break
-		}
-	}
-	for _, ph := range phis {
-		if _, ok := ph.Type().Underlying().(*types.Basic); !ok || isString(ph.Type()) {
+		if ph, isPhi := ins.(*ssa.Phi); isPhi && !scalarPhi(ph) {
 			return nil
 		}
 	}
-	if len(join.Preds) != 2 {
-		return nil
+	// evaluate
+	type edge struct{ from, to *ssa.BasicBlock }
+	edgeCond := map[edge]*Term{}
+	edgeCond[edge{cur, cur.Succs[0]}] = c
+	if cur.Succs[1] == cur.Succs[0] {
+		edgeCond[edge{cur, cur.Succs[0]}] = tTrue
+	} else {
+		edgeCond[edge{cur, cur.Succs[1]}] = mkNot(c)
 	}
-	if fromT != cur {
-		vm.runPure(fr, fromT)
-	}
-	if fromF != cur {
-		vm.runPure(fr, fromF)
-	}
-	for _, ph := range phis {
-		var vt, vf Value
-		for i, p := range join.Preds {
-			if p == fromT {
-				vt = vm.get(fr, ph.Edges[i])
+	phiValue := func(b *ssa.BasicBlock, ph *ssa.Phi) (*Term, bool) {
+		var res *Term
+		for k := len(b.Preds) - 1; k >= 0; k-- {
+			p := b.Preds[k]
+			ec, has := edgeCond[edge{p, b}]
+			if !has || ec.isFalse() {
+				continue
 			}
-			if p == fromF {
-				vf = vm.get(fr, ph.Edges[i])
+			v, isT := vm.get(fr, ph.Edges[k]).(*Term)
+			if !isT {
+				return nil, false
+			}
+			if res == nil {
+				res = v
+			} else {
+				res = mkIte(ec, v, res)
 			}
 		}
-		a, ok1 := vt.(*Term)
-		b, ok2 := vf.(*Term)
-		if !ok1 || !ok2 {
+		return res, res != nil
+	}
+	for k := len(order) - 1; k >= 0; k-- {
+		b := order[k]
+		pred := tFalse
+		for _, p := range b.Preds {
+			if ec, has := edgeCond[edge{p, b}]; has {
+				pred = mkOr(pred, ec)
+			}
+		}
+		for _, ins := range b.Instrs[:len(b.Instrs)-1] {
+			if ph, isPhi := ins.(*ssa.Phi); isPhi {
+				v, okv := phiValue(b, ph)
+				if !okv {
+					return nil
+				}
+				vm.set(fr, ph, v)
+				continue
+			}
+			vm.exec(fr, ins)
+		}
+		switch t := b.Instrs[len(b.Instrs)-1].(type) {
+		case *ssa.Jump:
+			e := edge{b, b.Succs[0]}
+			if old, has := edgeCond[e]; has {
+				edgeCond[e] = mkOr(old, pred)
+			} else {
+				edgeCond[e] = pred
+			}
+		case *ssa.If:
+			bc, isT := vm.get(fr, t.Cond).(*Term)
+			if !isT {
+				return nil
+			}
+			if b.Succs[0] == b.Succs[1] {
+				edgeCond[edge{b, b.Succs[0]}] = pred
+			} else {
+				edgeCond[edge{b, b.Succs[0]}] = mkAnd(pred, bc)
+				edgeCond[edge{b, b.Succs[1]}] = mkAnd(pred, mkNot(bc))
+			}
+		}
+	}
+	for _, ins := range join.Instrs {
+		ph, isPhi := ins.(*ssa.Phi)
+		if !isPhi {
+			continue
+		}
+		v, okv := phiValue(join, ph)
+		if !okv {
 			return nil
 		}
-		vm.set(fr, ph, mkIte(c, a, b))
+		vm.set(fr, ph, v)
 	}
 	vm.P.Merges++
 	fr.mergedInto = join
